@@ -921,6 +921,24 @@ def measure_facts():
     exec('from spyne.model.complex import ComplexModel\nfrom spyne.model.primitive import Integer\n'
          'class C15FactOrder(ComplexModel):\n' + ''.join('    %s = Integer\n' % n for n in names), ns)
     f['dictOrdered'] = list(ns['C15FactOrder']._type_info.keys()) == names and sys.version_info >= (3, 7)
+    # ... and does a class statement enumerate anything in hash order? (fresh interpreters, several hash seeds)
+    probe = ('from spyne.model.complex import ComplexModel\nfrom spyne.model.primitive import Integer, Unicode\n'
+             'T=[Integer(order=0), Unicode(order=0), Integer(order=1), Unicode(order=0), Integer(order=2), Unicode(order=1)]\n'
+             'class C(ComplexModel):\n    plain = Integer\n' +
+             ''.join('    %s = T[%d]\n' % (n, i) for i, n in enumerate(['alpha', 'beta', 'gamma', 'delta', 'epsilon', 'zeta'])) +
+             'print(",".join(C._type_info.keys()))\n')
+    env = dict(os.environ, PYTHONWARNINGS='ignore')
+    env['PYTHONPATH'] = os.pathsep.join([p for p in [os.environ.get('SPYNE_REPO')] if p])
+    outs = set()
+    procs = [subprocess.Popen([sys.executable, '-B', '-c', probe], env=dict(env, PYTHONHASHSEED=str(hs)),
+                              stdout=subprocess.PIPE, stderr=subprocess.PIPE, text=True) for hs in range(6)]
+    for pr in procs:
+        o, e = pr.communicate(timeout=120)
+        if pr.returncode != 0:
+            raise core.Infra('hash-seed probe failed: ' + e[-500:])
+        outs.add(o.strip())
+    f['hashSeedOrders'] = sorted(outs)
+    f['dictOrdered'] = f['dictOrdered'] and len(outs) == 1
     f['mandPrefix'], f['mandSuffix'] = const.MANDATORY_PREFIX, const.MANDATORY_SUFFIX
     f['arrPrefix'], f['arrSuffix'] = const.ARRAY_PREFIX, const.ARRAY_SUFFIX
     f['prefNs'] = sorted(PREFMAP.keys())
@@ -1142,6 +1160,15 @@ def check_exact(ctx, new, src, kw, opk, report):
         if a != b:
             report('exact:unrequested:%s:%s' % (kind_of(src), k),
                    'attribute %s was not requested but changed from %r to %r' % (k, getattr(src.Attributes, k), getattr(new.Attributes, k, None)))
+    # what the metaclass property setters keep behind the public names travels along as well
+    for hid_name, pub in (('_default_factory', 'default_factory'), ('_nullable', 'nillable'), ('_pattern', 'pattern'),
+                          ('_pattern_re', 'pattern')):
+        if pub in req or hid_name not in dir(src.Attributes):
+            continue
+        a, b = getattr(src.Attributes, hid_name, None), getattr(new.Attributes, hid_name, None)
+        same = (a is b) or (a == b) or (getattr(a, 'pattern', 0) == getattr(b, 'pattern', 1))
+        if not same and not (hid_name == '_nullable' and src.Attributes.nullable == new.Attributes.nullable):
+            report('exact:unrequested:hidden:' + hid_name, 'the derived class lost/changed %s of its source (%r -> %r) although %s was not requested' % (hid_name, a, b, pub))
     if 'nillable' not in req and src.Attributes.nullable != new.Attributes.nullable:
         report('exact:%s:unrequested:nullable' % opk, 'nullable changed without being requested')
     if kind_of(new) != kind_of(src):
@@ -1587,8 +1614,11 @@ def _instance_checks(self, c, flat):
         # the defaults of the field types are what a fresh instance starts with
         fresh = (c.__orig__ or c)()
         for k, t in (c.__orig__ or c).get_flat_type_info(c.__orig__ or c).items():
+            fac = t.Attributes.default_factory
+            if fac is not None and getattr(fresh, k, None) != fac():
+                self.report('exact:default_factory', 'field %r of %s has a default_factory giving %r, a fresh instance has %r' % (k, c.__name__, fac(), getattr(fresh, k, None)))
             d = t.Attributes.default
-            if d is not None and getattr(fresh, k, None) != d:
+            if fac is None and d is not None and getattr(fresh, k, None) != d:
                 self.report('exact:default', 'field %r of %s has default %r, a fresh instance has %r' % (k, c.__name__, d, getattr(fresh, k, None)))
         self.ctx.hit('instance-checked')
     except Exception as e:
@@ -1710,6 +1740,15 @@ CORPUS = [
                      {'k': 'append', 'c': 10, 'name': 'only-variant', 't': I_}]),
 ]
 
+CORPUS.append(
+    # several fields with `order=`: inserted one after the other, in declaration sequence - under every hash seed
+    ('ordered-fields', [{'k': 'cust', 'src': U_, 'kw': _kw(order=0)}, {'k': 'cust', 'src': I_, 'kw': _kw(order=0)},
+                        {'k': 'cust', 'src': B_, 'kw': _kw(order=1)}, {'k': 'cust', 'src': D_, 'kw': _kw(order=0)},
+                        {'k': 'sub', 'name': 'Ord', 'base': None, 'ns': 'ns.a',
+                         'fields': [['plain', I_], ['alpha', 8], ['beta', 9], ['gamma', 10], ['delta', 11], ['epsilon', 8],
+                                    ['zeta', 9], ['last', U_]]},
+                        {'k': 'cust', 'src': 12, 'kw': _kw(min_occurs=1)},
+                        {'k': 'sub', 'name': 'Ord2', 'base': 12, 'ns': 'ns.a', 'fields': [['p', 9], ['q', 8], ['r', 11]]}]))
 CORPUS.append(
     # an unnamed customised primitive shared by a class and its later subclass: who names it in the schema?
     ('anonymous-type-name', [{'k': 'cust', 'src': U_, 'kw': _kw(max_len=5)},
@@ -1887,6 +1926,7 @@ def other_seeds(ctx, ops_list, seeds):
 
 
 # ------------------------------------------------------------------------------------ run
+CORPUS_ORDERED = [c for c in CORPUS if c[0] == 'ordered-fields'][0][1]
 FACT_WITNESS = {
     'mandRule': [{'k': 'array', 'src': I_, 'kw': []}, {'k': 'mand', 'src': 8}],
     'varRule': CORPUS[1][1][:5],
@@ -1958,7 +1998,7 @@ FACT_WITNESS = {
                 {'k': 'sub', 'name': 'Item', 'base': None, 'ns': 'ns.a', 'fields': [['id', 9], ['label', 8], ['alias', 10]]},
                 {'k': 'cust', 'src': 10, 'kw': _kw(autoincrement=True, index=True)},
                 {'k': 'cust', 'src': 11, 'kw': _kw(pk=True)}, {'k': 'cust', 'src': 13, 'kw': _kw(server_default='x', unique=True)}],
-    'dictOrdered': [{'k': 'sub', 'name': 'W', 'base': None, 'ns': None, 'fields': [['zeta', I_], ['alpha', U_], ['mid', I_]]}],
+    'dictOrdered': CORPUS_ORDERED + [{'k': 'sub', 'name': 'W', 'base': None, 'ns': None, 'fields': [['zeta', I_], ['alpha', U_], ['mid', I_]]}],
 }
 
 
@@ -1996,6 +2036,19 @@ def run(ctx):
         ctx.hit('len:%d' % length)
         if hid % 25 == 24:
             gc.collect()
+    # ---- directed: what an exotic keyword set survives every further derivation, down to fresh instances
+    directed = [{'k': 'xcust', 'src': U_, 'x': ['default_factory', 'parser'], 'kw': []},          # 8
+                {'k': 'cust', 'src': 8, 'kw': _kw(max_len=5)},                                     # 9
+                {'k': 'cust', 'src': 9, 'kw': []},                                                 # 10
+                {'k': 'mand', 'src': 10},                                                          # 11
+                {'k': 'array', 'src': 9, 'kw': []},                                                # 12
+                {'k': 'sub', 'name': 'DF', 'base': None, 'ns': 'ns.a', 'fields': [['t', 9], ['u', 10], ['v', I_]]},   # 13
+                {'k': 'cust', 'src': 13, 'kw': [], 'ca': [['t', _kw(min_occurs=1)]], 'caa': _kw(sub_name='alt')},   # 14
+                {'k': 'xcust', 'src': I_, 'x': ['default_factory'], 'kw': []},                     # 15
+                {'k': 'cust', 'src': 15, 'kw': _kw(ge=0)},                                         # 16
+                {'k': 'append', 'c': 13, 'name': 'w', 't': 16},
+                {'k': 'sub', 'name': 'DG', 'base': 13, 'ns': 'ns.a', 'fields': [['x', 16]]}]
+    run_history(ctx, 'x-directed', ops=directed, with_schema=False, exotic=True)
     # ---- histories with keywords outside the Lean model (callables, prot_attrs, foreign keys, store_as, ...): T3 only
     for hid in range(200 if ctx.thorough else 24):
         run_history(ctx, 'x%d' % hid, rng=ctx.rng, length=ctx.rng.choice([8, 12, 16]), with_schema=False, exotic=True)
@@ -2004,7 +2057,7 @@ def run(ctx):
     compare_with_model(ctx, runs)
     # ---- other hash seeds
     sel = [ops for _, ops, _ in runs[:len(FACT_WITNESS) + len(CORPUS)]] + [ops for _, ops, _ in runs[-(40 if ctx.thorough else 12):]]
-    other_seeds(ctx, sel, [1, 2, 12345] if not ctx.thorough else list(range(1, 17)))
+    other_seeds(ctx, sel, [0, 1, 2, 3, 4, 12345] if not ctx.thorough else list(range(0, 17)))
     ctx.cov['histories'] = len(runs)
     ctx.cov['rule'] = ('one evaluation = one operation of a history applied to real spyne classes and observed (deep snapshot of '
                        'every pooled model for T2; shallow observation of every class reachable from the pool - all public '
